@@ -345,11 +345,45 @@ func c10ValidMsg(r *rand.Rand, udpHeader bool) []byte {
 	return b
 }
 
+// c10BoundaryNames: the domain names every run offers to each SOCKS5 parser (lengths 0, 1, 2, 254, 255 and
+// contents a parser that normalises names could mishandle).
+func c10BoundaryNames() [][]byte {
+	rep := func(b byte, n int) []byte { return bytes.Repeat([]byte{b}, n) }
+	names := [][]byte{
+		{}, []byte("."), []byte(".."), []byte("a"), []byte("a."), []byte(".a"), []byte("A"), []byte("7"), {0}, {0xff},
+		[]byte("localhost."), []byte("LOCALHOST"), []byte("example.com."), []byte("xn--fsq.example"), []byte("1.2.3.4"), []byte("::1"),
+		rep('a', 254), rep('a', 255), append(rep('a', 254), '.'), rep('.', 255), append(rep('b', 253), '.'),
+	}
+	return names
+}
+
 func c10Socks(c *core.Ctx) {
 	var cases []c10SocksCase
 	parsers := []string{"req", "resp", "req4", "resp4"}
 	add := func(target string, b []byte, cap int, cmd int) {
 		cases = append(cases, c10SocksCase{Target: target, Hex: hex.EncodeToString(b), Cap: cap, Cmd: cmd})
+	}
+	// deterministic boundary messages, every run: domain-name lengths 0/1/2/254/255 with contents that a
+	// "normalising" parser might touch (trailing / leading / only dots, upper case, digits, non-ASCII, NUL),
+	// in a request / reply / bare address / UDP header / client-side reply, whole and cut right after the name
+	for _, name := range c10BoundaryNames() {
+		m := append([]byte{5, 1, 0, 3, byte(len(name))}, name...)
+		m = append(m, 0x01, 0xbb)
+		for _, t := range parsers {
+			add(t, m, 0, 0)
+			add(t, m[:len(m)-2], 0, 0)
+		}
+		add("addr", m[3:], 0, 0)
+		add("addr", m[3:len(m)-2], 0, 0)
+		u := append([]byte{0, 0, 0}, m[3:]...)
+		u = append(u, 'x', 'y')
+		add("udp", u, 0, 0)
+		add("wrap", u, 1500, 0)
+		add("transceive", u, 0, 0)
+		rep := append([]byte{5, 0}, m...)
+		rep[3] = 0
+		add("client-reply", rep, 0, 1)
+		add("client-reply", rep, 0, 3)
 	}
 	nBase := c.N(12, 120)
 	for i := 0; i < nBase; i++ {
